@@ -143,6 +143,11 @@ for form, fns in [("fast", ["geometry::kernel::FastKernel::in_sphere (T = f32)",
       "query (1,-9839) with the third vertex and the query each displaced by every offset of [-3,3]^2 (2401 configurations): "
       "the strict exact sign wherever |det| >= 1e6 (six orders above the f64 rounding error) -- regression guard for F5",
       fns + LU4 + LU3)
+for kern in ["fast", "robust"]:
+    h("C12", "c12", f"c12_orient3d_{kern}_aniso_origin", "thorough", 6000,
+      f"D=3 orientation ({kern} kernel) on ANISOTROPIC dyadic lattices: first vertex at the origin, three points of {{-1,0,1}}^3 "
+      "scaled by (2^a, 2^a, 2^b), a in 0..=12, b in -44..=0 symbolic: exact sign where the determinant n*2^(2a+b) clears the "
+      "documented tolerance by 100x (a+b >= -30 and 2a+b >= -40), DEGENERATE where n = 0, never the opposite sign", LU4)
 PROP_ASSUMPTIONS["C12"] = [
     "coordinates are small integers (or integers times 2^-k) cast exactly to f64; D>=4, D=3 in-sphere and the distance-based "
     "cross-check / perturbation fallbacks of robust_insphere are outside the claim",
